@@ -46,6 +46,15 @@ func (FV) M() {{}}
 
 var _ blib.I
 
+// values whose static type is itself an interface
+var (
+	IVal   I           = V{{20}}
+	JVal   J           = W{{21}}
+	KVal   K           = W{{22}}
+	AnyVal interface{{}} = W{{23}}
+	EVal   E
+)
+
 func NewV() V       {{ return V{{1}} }}
 func NewPV() *V     {{ return &V{{2}} }}
 func NewP() P       {{ return P{{3}} }}
@@ -96,10 +105,15 @@ BIND = [
 IVALUE = [
     ("I", "V{}", True), ("I", "P{}", False), ("I", "&P{}", True), ("I", "&V{}", True), ("J", "V{}", False), ("J", "W{}", True),
     ("I", "Named(3)", True), ("blib.I", "blib.V{}", True), ("blib.I", "blib.P{}", False), ("E", "W{}", False), ("I", "Emb{}", True),
+    # the value's static type is an interface: it must have every method of the target, whatever it holds at run time
+    ("I", "JVal", True), ("J", "IVal", False), ("K", "IVal", False), ("I", "KVal", False), ("K", "JVal", True), ("J", "AnyVal", False),
+    ("I", "AnyVal", False), ("E", "IVal", False), ("I", "EVal", True), ("blib.I", "IVal", True), ("J", "KVal", False),
+    ("interface{}", "IVal", True), ("I", "I(V{})", True), ("J", "I(W{})", False), ("J", "AnyVal.(I)", False), ("J", "AnyVal.(J)", True),
 ]
 
 
-def run_c11(rep, tier):
+def run_c11(rep, tier, only=None):
+    """only="ivalue": just the wire.InterfaceValue half (property C13 claims it too)"""
     ws = Workspace()
     fails = []
     stats = {"cases": 0, "accepted": 0, "rejected": 0}
@@ -108,7 +122,7 @@ def run_c11(rep, tier):
         open(ws.root + "/blib/blib.go", "w").write(BLIB)
         plan = []
         for k, (i, c, prov, want) in enumerate(BIND):
-            if prov is None:
+            if prov is None or only == "ivalue":
                 continue
             pkg = "b%d" % k
             d = ws.root + "/" + pkg
